@@ -1559,10 +1559,22 @@ async fn hwm(p: &[&str]) -> String {
     return format!("setup-error bind {}", err_class(&e));
   }
   let target = if transport == "tcp" { last_endpoint(&rcv).await } else { ep.clone() };
+  let ms = snd.monitor_default().await.ok();
+  let mr = rcv.monitor_default().await.ok();
   if let Err(e) = snd.connect(&target).await {
     return format!("setup-error connect {}", err_class(&e));
   }
-  tokio::time::sleep(Duration::from_millis(250)).await;
+  if transport != "inproc" {
+    if let (Some(a), Some(b)) = (ms.as_ref(), mr.as_ref()) {
+      let (ra, rb) = tokio::join!(wait_handshake(a, Duration::from_secs(5)), wait_handshake(b, Duration::from_secs(5)));
+      if ra != "ok" || rb != "ok" {
+        return "setup-error handshake".into();
+      }
+    }
+  }
+  drop(ms);
+  drop(mr);
+  tokio::time::sleep(Duration::from_millis(150)).await;
   let mut problems: Vec<String> = Vec::new();
   let slack = Duration::from_millis(600);
   // A: RCVTIMEO on an empty queue
